@@ -26,28 +26,9 @@ type Blk struct {
 // nonStdCost measures what the verification of the non-standard witnesses of the accounts costs per unit of the
 // execution fee factor, on the replica, with a probe transaction signed for the node sets designated right now.
 func (w *World) nonStdCost(a ATx, accts []*acct) (int64, error) {
-	var need bool
-	for _, c := range accts {
-		if c.kind != "sig" && c.kind != "ms" {
-			need = true
-		}
-	}
-	if !need {
-		return 0, nil
-	}
-	st := w.State()
-	p := a
-	p.Size, p.Conf = 0, nil
-	if p.Nn != 0 {
-		p.Nn = st.Nn
-	}
-	tx := w.shape(p, accts, 50, nil)
-	for i, c := range accts {
-		tx.Scripts[i] = w.witness(c, tx, p.Nn)
-	}
 	var sum int64
 	exec := w.rep.GetBaseExecFee() / execUnit
-	for i, c := range accts {
+	for _, c := range accts {
 		if c.kind == "sig" || c.kind == "ms" {
 			continue
 		}
@@ -56,11 +37,29 @@ func (w *World) nonStdCost(a ATx, accts []*acct) (int64, error) {
 			sum += v
 			continue
 		}
-		g, err := w.rep.VerifyWitness(c.h, tx, &tx.Scripts[i], 10*gas)
-		if err != nil {
-			return 0, fmt.Errorf("cannot measure the %s witness: %w", c.kind, err)
+		// a canonical probe per kind: it must verify whatever the universe's own transaction looks like
+		p := ATx{ID: 9999, Signers: []string{"X", c.name}, Vub: 3}
+		switch c.kind {
+		case "notary":
+			p.Signers[1], p.Nn = "NOTARY", w.State().Nn
+		case "oracle":
+			p = ATx{ID: 9999, Signers: []string{"ORC", "ON"}, Vub: 3, Orc: max(a.Orc, 1), On: max(a.On, 1)}
 		}
-		if g%exec != 0 {
+		pa, err := w.accounts(p)
+		if err != nil {
+			return 0, err
+		}
+		tx := w.shape(p, pa, 50, nil)
+		var g int64 = -1
+		for i, x := range pa {
+			tx.Scripts[i] = w.witness(x, tx, p.Nn)
+			if x.kind == c.kind {
+				if g, err = w.rep.VerifyWitness(x.h, tx, &tx.Scripts[i], 10*gas); err != nil {
+					return 0, fmt.Errorf("cannot measure the %s witness: %w", c.kind, err)
+				}
+			}
+		}
+		if g < 0 || g%exec != 0 {
 			return 0, fmt.Errorf("%s witness cost %d is not a multiple of the execution fee factor %d", c.kind, g, exec)
 		}
 		w.costs[key] = g / exec
@@ -152,6 +151,9 @@ func (w *World) opTx(b Blk) (tx *transaction.Transaction, err error) {
 	case "drain":
 		p := w.acc[b.A]
 		return w.prep([]neotest.Signer{w.ops.signer(), p.signer()}, 0, e.NativeHash(w.t, nativenames.Gas), "transfer", p.h, w.sink, b.V, nil), nil
+	case "withdraw":
+		d := w.acc[w.acc[b.A].dep]
+		return w.prep([]neotest.Signer{w.ops.signer(), d.signer()}, 0, nativehashes.Notary, "withdraw", d.h, w.sink), nil
 	case "conflict":
 		by, ok := w.acc[b.A]
 		if !ok || by.kind != "sig" {
